@@ -44,6 +44,20 @@ pub fn run(ctx: &mut Ctx) {
                   ">> a  b: c  d\n\nx", ">> e  f: g  h\n\nx"] {
             inputs.push(s.to_string());
         }
+        // characters whose code points agree in their low 8 / 16 bits but differ in lexical class (a memo of the character
+        // classes keyed by part of the code point would confuse them): the astral / shifted ones first, then the BMP ones
+        if round == 0 {
+            let bases: [u32; 12] = [0xB7, 0xAB, 0x2014, 0xA1, 0xA0, 0x2003, 0x3000, 0xE9, 0x5F, 0x2D, 0x3001, 0x37E];
+            let mut first: Vec<String> = Vec::new(); let mut later: Vec<String> = Vec::new();
+            for b in bases {
+                let Some(c) = char::from_u32(b) else { continue };
+                for off in [0x10000u32, 0x20000, 0xF0000, 0x100, 0x1000, 0x300] {
+                    if let Some(a) = char::from_u32(b + off) { first.push(format!("Stir{a} gently a{a}b.\n")); }
+                }
+                later.push(format!("@salt{c}pepper a{c}b @salt{c}pepper{{}} x{c}\n"));
+            }
+            let mut all = first; all.extend(later); all.extend(inputs.drain(..)); inputs = all;
+        }
         // (a) fresh parser per input (+ model)
         let fresh: Vec<String> = inputs.iter().map(|s| image(&mk(), s)).collect();
         for (s, img) in inputs.iter().zip(fresh.iter()) {
@@ -84,6 +98,47 @@ pub fn run(ctx: &mut Ctx) {
         }
         ctx.count_n("mode-c-parses", (nthreads * inputs.len()) as u64);
         ctx.count(&format!("threads:{nthreads}"));
+        // (e) one parser VARIABLE that is assigned parsers with different converters in turn (each new parser takes the place
+        // of the previous one in memory): what a parse returns depends on the converter of the parser asked, not on the
+        // converters earlier parsers at that place had
+        if round % 2 == 1 {
+            use cooklang::convert::units_file::{Extend, ExtendUnitEntry, UnitsFile};
+            let ext = Extensions::from_bits_retain(ext_bits);
+            let rebased_time = || {
+                let mut m = std::collections::HashMap::new();
+                for (k, r) in [("second", 1000.0), ("minute", 60000.0), ("hour", 3600000.0), ("day", 86400000.0)] { m.insert(k.to_string(), ExtendUnitEntry { ratio: Some(r), ..Default::default() }); }
+                let layer = UnitsFile { default_system: None, si: None, fractions: None, extend: Some(Extend { precedence: Default::default(), units: m }), quantity: vec![] };
+                Converter::builder().with_bundled_units().ok()?.with_units_file(layer).ok()?.finish().ok()
+            };
+            let renamed = || {
+                let mut m = std::collections::HashMap::new();
+                m.insert("minute".to_string(), ExtendUnitEntry { names: Some(vec!["minuto".into(), "minutos".into()]), symbols: Some(vec!["mn".into()]), aliases: Some(vec![]), ..Default::default() });
+                let layer = UnitsFile { default_system: None, si: None, fractions: None, extend: Some(Extend { precedence: cooklang::convert::units_file::Precedence::Override, units: m }), quantity: vec![] };
+                Converter::builder().with_bundled_units().ok()?.with_units_file(layer).ok()?.finish().ok()
+            };
+            let kinds: Vec<Box<dyn Fn() -> Option<Converter>>> = vec![Box::new(|| Some(Converter::bundled())), Box::new(rebased_time), Box::new(renamed), Box::new(|| Some(Converter::empty())),
+                Box::new(|| crate::props::c09::alt_world().map(|w| w.conv))];
+            let probes = ["---\nprep time: 20 min\n---\nx\n", "---\nprep time: 20 minutos\ncook time: 1 h\n---\nx\n", ">> time: 1 hour 30 min\n\nWait ~{5%min} and ~{2%mn}.\n", "---\ntime: 90 min\n---\n@a{1%kg} ~{1%h}\n", ">> cook time: 2 horas\n"];
+            // reference: one parser per converter, all alive at the same time (so each at its own place)
+            let ref_parsers: Vec<Option<Box<CooklangParser>>> = kinds.iter().map(|k| k().map(|c| Box::new(CooklangParser::new(ext, c)))).collect();
+            let mut reference: Vec<Option<Vec<String>>> = ref_parsers.iter().map(|p| p.as_ref().map(|p| probes.iter().map(|s| image(p, s)).collect())).collect();
+            let mut slot = CooklangParser::new(ext, Converter::empty());
+            let n_alt = if ctx.thorough { 400 } else { 40 };
+            for step in 0..n_alt {
+                let k = if step < kinds.len() { step } else { rng.below(kinds.len()) };
+                let Some(conv) = kinds[k]() else { continue };
+                slot = CooklangParser::new(ext, conv);
+                let imgs: Vec<String> = probes.iter().map(|p| image(&slot, p)).collect();
+                ctx.eval("", false);
+                match &reference[k] {
+                    None => reference[k] = Some(imgs),
+                    Some(want) => for (i, (a, b)) in imgs.iter().zip(want.iter()).enumerate() { if a != b {
+                        ctx.oracle_fail(format!("parser variable re-assigned (step {step}, converter kind {k}): ext={ext_bits} input={:?}", probes[i]), format!("the result differs from that of a parser built with the same converter that lives elsewhere\nother: {b}\nnow:   {a}"), "c18:history".into());
+                    } },
+                }
+            }
+            ctx.count_n("mode-e-parser-replacements", n_alt as u64);
+        }
         // (d) contention on the converter: few inputs, each dense in look-ups of DIFFERENT short units, many
         // threads hammering one parser (a shared memo/cache inside the converter would tear here)
         if conv == 1 {
